@@ -353,7 +353,7 @@ PROPS['C08']['bounds'] += ' M: generate, boxed generate, map (owned and &), zip,
 
 # write permission of mutable views (added after the third seeded round: `as_ptr()` where `as_mut_ptr()` was meant leaves address, length and
 # contents right and makes every write through the view undefined behaviour)
-for pid in ('C02', 'C09', 'C10', 'C11'):
+for pid in ('C02', 'C09', 'C10', 'C11', 'C18'):      # C18: the const evaluator rejects a write through a view derived from a shared borrow
     PROPS[pid]['mir']['quick'].append(mrun(['mutprov'], nmax=3))
     PROPS[pid]['bounds'] += ' M (mutprov): every `&mut`-to-`&mut` view function of the crate, all N: the returned pointer is derived from the argument through mutable borrows / raw pointers only (a step through a shared borrow is reported; confirmed by Miri with Tree Borrows on a driver that writes through every view).'
     PROPS[pid].setdefault('outside', [])
